@@ -1,4 +1,5 @@
 import Model.CtlBeat
+import Model.EvDeb
 /-! Invariant of the heartbeat / close machine (`Model/CtlBeat.lean`). -/
 
 namespace CtlBeat
@@ -31,3 +32,28 @@ theorem inv_run : ∀ (as : List Act) (s s' : St), Inv s → run s as = some s' 
     · simp at hr
 
 end CtlBeat
+
+namespace EvDeb
+
+/-- the flusher of the code that exists is never inside the handler -/
+def Inv (st : St) : Prop := st.fl ≠ .inCallback
+
+theorem inv_init : Inv init := by simp [Inv, init]
+
+theorem inv_step (st st' : St) (a : Act) (h : Inv st) (hs : step st a = some st') : Inv st' := by
+  unfold Inv at *
+  cases a <;> simp only [step] at hs <;> (repeat' split at hs) <;>
+    first
+    | (simp at hs; done)
+    | (injection hs with hs; subst hs; simp_all)
+
+theorem inv_run : ∀ (as : List Act) (s s' : St), Inv s → run s as = some s' → Inv s'
+  | [], s, s', h, hr => by simp [run] at hr; subst hr; exact h
+  | a :: as, s, s', h, hr => by
+    simp only [run] at hr
+    split at hr
+    · rename_i s1 hs1
+      exact inv_run as s1 s' (inv_step s s1 a h hs1) hr
+    · simp at hr
+
+end EvDeb
